@@ -8,6 +8,7 @@ package ev
 
 import (
 	"crypto/sha1"
+	"encoding/binary"
 	"encoding/hex"
 	"encoding/json"
 	"fmt"
@@ -68,7 +69,7 @@ type Run struct {
 	deadline    time.Time
 	cov         map[string]interface{}
 	counters    map[string]int64
-	distinct    map[string]map[string]struct{}
+	distinct    map[string]map[uint64]struct{} // 64-bit hashes of the keys (sets reach 10^8 entries in thorough tiers)
 	samples     []interface{}
 	maxSamples  int
 	assumptions []string
@@ -87,7 +88,7 @@ type Run struct {
 func Start(id, level string) *Run {
 	r := &Run{ID: id, Level: level, Tier: "quick", start: time.Now(),
 		cov: map[string]interface{}{}, counters: map[string]int64{},
-		distinct: map[string]map[string]struct{}{}, maxSamples: 8,
+		distinct: map[string]map[uint64]struct{}{}, maxSamples: 8,
 		unknownSigs: map[string]int{}, knownHits: map[string]int{}, knownEx: map[string]string{}}
 	if t := os.Getenv("VERIF_TIER"); t == "thorough" || t == "quick" {
 		r.Tier = t
@@ -221,17 +222,17 @@ func (r *Run) Count(k string) int64 {
 // Distinct records key in the named set; the set sizes are reported in coverage and the
 // set named "nontrivial" becomes distinct_nontrivial.
 func (r *Run) Distinct(set, key string) {
+	// the sets only report their sizes: keep the first 8 bytes of a SHA-1 of the key, not the key
+	// (a collision among n keys has probability about n^2/2^65 and costs one count)
+	h := sha1.Sum([]byte(key))
+	k := binary.LittleEndian.Uint64(h[:8])
 	r.mu.Lock()
 	m := r.distinct[set]
 	if m == nil {
-		m = map[string]struct{}{}
+		m = map[uint64]struct{}{}
 		r.distinct[set] = m
 	}
-	if len(key) > 96 {
-		h := sha1.Sum([]byte(key))
-		key = hex.EncodeToString(h[:])
-	}
-	m[key] = struct{}{}
+	m[k] = struct{}{}
 	r.mu.Unlock()
 }
 
